@@ -12,7 +12,7 @@ namespace AIToolbox::Bandit {
         // QFunction and counts parameters to obtain the correct mean
         // estimates.
         size_t bestAction = 0;
-        double bestValue = std::numeric_limits<double>::min();
+        double bestValue = std::numeric_limits<double>::lowest();
 
         const auto & counts = exp_.getVisitsTable();
         const auto & q = exp_.getRewardMatrix();
